@@ -1,0 +1,76 @@
+//go:build verif
+
+package llmsetup
+
+import (
+	"fmt"
+	"os"
+	"strconv"
+	"syscall"
+)
+
+// Verification hook (build tag verif only). Every call of verifPoint gets the
+// next index 0,1,2,...
+//
+//	KESSOKU_VERIF_TRACE=<file>  append "<index> <name>" per call
+//	KESSOKU_VERIF_CRASH=<i>     SIGKILL this process at call i
+//	KESSOKU_VERIF_FAIL=<i>      call i returns an injected error
+//	KESSOKU_VERIF_PARTIAL=<k>:<j>  at the k-th verifPartial call write j bytes
+//	                            of the content to the temp file, then SIGKILL
+var (
+	verifCounter  int
+	verifPartialN int
+)
+
+func verifEnvInt(name string) (int, bool) {
+	v, ok := os.LookupEnv(name)
+	if !ok {
+		return 0, false
+	}
+	n, err := strconv.Atoi(v)
+	if err != nil {
+		return 0, false
+	}
+	return n, true
+}
+
+func verifKill() {
+	_ = syscall.Kill(os.Getpid(), syscall.SIGKILL)
+	select {}
+}
+
+func verifPoint(name string) error {
+	i := verifCounter
+	verifCounter++
+	if p := os.Getenv("KESSOKU_VERIF_TRACE"); p != "" {
+		if f, err := os.OpenFile(p, os.O_APPEND|os.O_CREATE|os.O_WRONLY, 0o644); err == nil {
+			fmt.Fprintf(f, "%d %s\n", i, name)
+			_ = f.Close()
+		}
+	}
+	if n, ok := verifEnvInt("KESSOKU_VERIF_CRASH"); ok && n == i {
+		verifKill()
+	}
+	if n, ok := verifEnvInt("KESSOKU_VERIF_FAIL"); ok && n == i {
+		return fmt.Errorf("verif: injected failure at point %d (%s)", i, name)
+	}
+	return nil
+}
+
+func verifPartial(f *os.File, content []byte) {
+	k := verifPartialN
+	verifPartialN++
+	v := os.Getenv("KESSOKU_VERIF_PARTIAL")
+	if v == "" {
+		return
+	}
+	var wk, wj int
+	if _, err := fmt.Sscanf(v, "%d:%d", &wk, &wj); err != nil || wk != k {
+		return
+	}
+	if wj > len(content) {
+		wj = len(content)
+	}
+	_, _ = f.Write(content[:wj])
+	verifKill()
+}
